@@ -110,17 +110,25 @@ static inline int snap_live(const bool *del, int n) { int c = 0; for (int i = 0;
 
 // ---- comparison of the real mesh's snapshot with the reference at SYMBOLIC probe indices ---------------
 // (counts are compared directly; entries at probe indices pv/pe/pf/pc and list position pk chosen by the solver)
-static void assert_snap_matches(const Snap &act, const Snap &ref, const char *what_counts, const char *what_v, const char *what_e, const char *what_f, const char *what_c) {
-  v_assert(act.nV == ref.nV && act.nE == ref.nE && act.nF == ref.nF && act.nC == ref.nC, what_counts);
-  if (act.nV != ref.nV || act.nE != ref.nE || act.nF != ref.nF || act.nC != ref.nC) return;
-  if (act.nV > 0) { unsigned p = v_nondet_below((unsigned)act.nV); v_assert(act.vdel[p] == ref.vdel[p], what_v); }
-  if (act.nE > 0) { unsigned p = v_nondet_below((unsigned)act.nE); v_assert(act.efrom[p] == ref.efrom[p] && act.eto[p] == ref.eto[p] && act.edel[p] == ref.edel[p], what_e); }
-  if (act.nF > 0) {
-    unsigned p = v_nondet_below((unsigned)act.nF), k = v_nondet_below(MAXFV);
-    v_assert(act.fval[p] == ref.fval[p] && act.fdel[p] == ref.fdel[p] && ((int)k >= act.fval[p] || act.fhe[p][k] == ref.fhe[p][k]), what_f);
-  }
-  if (act.nC > 0) {
-    unsigned p = v_nondet_below((unsigned)act.nC), k = v_nondet_below(MAXCV);
-    v_assert(act.cval[p] == ref.cval[p] && act.cdel[p] == ref.cdel[p] && ((int)k >= act.cval[p] || act.chf[p][k] == ref.chf[p][k]), what_c);
-  }
-}
+// always inlined: every call site keeps its own constant assertion texts (a shared out-of-line copy would receive the texts as
+// run-time arguments and the translator could only emit a generic description).
+// Stored definitions of deferred-deleted (not yet collected) entities are compared by separate assertions (suffix
+// "[deleted entity]"): they are observable through edge()/face()/cell() but no longer part of the logical mesh.
+#define ASSERT_SNAP_MATCHES(act, ref, what_counts, what_v, what_e, what_f, what_c) do { \
+  v_assert((act).nV == (ref).nV && (act).nE == (ref).nE && (act).nF == (ref).nF && (act).nC == (ref).nC, what_counts); \
+  if ((act).nV == (ref).nV && (act).nE == (ref).nE && (act).nF == (ref).nF && (act).nC == (ref).nC) { \
+    if ((act).nV > 0) { unsigned p_ = v_nondet_below((unsigned)(act).nV); v_assert((act).vdel[p_] == (ref).vdel[p_], what_v); } \
+    if ((act).nE > 0) { unsigned p_ = v_nondet_below((unsigned)(act).nE); \
+      v_assert((act).edel[p_] == (ref).edel[p_], what_e " (deleted flag)"); \
+      bool same_ = (act).efrom[p_] == (ref).efrom[p_] && (act).eto[p_] == (ref).eto[p_]; \
+      if (!(ref).edel[p_]) v_assert(same_, what_e); else v_assert(same_, what_e " [deleted entity]"); } \
+    if ((act).nF > 0) { unsigned p_ = v_nondet_below((unsigned)(act).nF), k_ = v_nondet_below(MAXFV); \
+      v_assert((act).fdel[p_] == (ref).fdel[p_], what_f " (deleted flag)"); \
+      bool same_ = (act).fval[p_] == (ref).fval[p_] && ((int)k_ >= (act).fval[p_] || (act).fhe[p_][k_] == (ref).fhe[p_][k_]); \
+      if (!(ref).fdel[p_]) v_assert(same_, what_f); else v_assert(same_, what_f " [deleted entity]"); } \
+    if ((act).nC > 0) { unsigned p_ = v_nondet_below((unsigned)(act).nC), k_ = v_nondet_below(MAXCV); \
+      v_assert((act).cdel[p_] == (ref).cdel[p_], what_c " (deleted flag)"); \
+      bool same_ = (act).cval[p_] == (ref).cval[p_] && ((int)k_ >= (act).cval[p_] || (act).chf[p_][k_] == (ref).chf[p_][k_]); \
+      if (!(ref).cdel[p_]) v_assert(same_, what_c); else v_assert(same_, what_c " [deleted entity]"); } \
+  } } while (0)
+#define assert_snap_matches(act, ref, a, b, c, d, e) ASSERT_SNAP_MATCHES(act, ref, a, b, c, d, e)
